@@ -19,10 +19,11 @@ class Unsupported(Exception):
 
 class V:
     """typed symbolic value: z3 PyObj term + static type (hint, always justified by the path condition)"""
-    __slots__ = ('t', 'ty')
+    __slots__ = ('t', 'ty', 'truth_hint')
 
-    def __init__(self, t, ty=S.Any):
+    def __init__(self, t, ty=S.Any, truth_hint=None):
         self.t, self.ty = t, ty
+        self.truth_hint = truth_hint      # for `a and b` / `a or b`: the truth value as the conjunction / disjunction of the operands' truth values (logically equal to truth(t))
 
     def __repr__(self):
         return f'V({self.t}:{self.ty})'
@@ -1148,6 +1149,11 @@ class Exec:
             self.safety(st, 'TypeError', 'index ' + desc, S.is_int(k.t))
         i = S.ival(k.t)
         n = z3.Length(seq)
+        si = z3.simplify(i)
+        if z3.is_int_value(si) and si.as_long() >= 0:
+            # a non-negative literal index: only the upper bound can fail (the lower one is `|seq| >= 0`, which z3 does not always find in a large context)
+            self.safety(st, 'IndexError', desc, si < n)
+            return si
         self.safety(st, 'IndexError', desc, z3.And(i >= -n, i < n))
         return z3.If(i < 0, i + n, i)
 
@@ -1515,7 +1521,7 @@ class Exec:
         for v, t in zip(reversed(vals[:-1]), reversed(truths[:-1])):
             res = z3.If(t, res, v.t) if is_and else z3.If(t, v.t, res)
         tys = {repr(v.ty) for v in vals}
-        return V(res, vals[0].ty if len(tys) == 1 else S.Any)
+        return V(res, vals[0].ty if len(tys) == 1 else S.Any, truth_hint=(z3.And(*truths) if is_and else z3.Or(*truths)))
 
     def ev_IfExp(self, e, st):
         c = self.truth(self.ev(e.test, st), st)
@@ -1752,6 +1758,8 @@ class Exec:
 
     # ---- truthiness ------------------------------------------------------------------------------------------------
     def truth(self, v, st):
+        if getattr(v, 'truth_hint', None) is not None:
+            return v.truth_hint
         k = v.ty.kind
         t = v.t
         if k == 'bool': return S.bval(t)
